@@ -100,6 +100,10 @@ class Hooks(W.Hooks):
                 return
             else:
                 self.nontrivial = True
+        if si.exc is None and si.op == "lshift" and not si.info.get("bad") and si.operands[0].typ == "table" \
+                and si.info.get("result_type") != "Table" and len({len(a) for a in si.info.get("appended", [[]])}) == 1:
+            self.failed = ctx.fail(f"lshift/{si.info['form']}/result-is-not-a-table", f"step {step}: table << rows returned {si.info.get('result_type')}")
+            return
         if si.exc is not None or res is None:
             return
         if si.op == "rshift" and isinstance(res, S.Table):
